@@ -28,7 +28,7 @@ MAP = [  # (commit subject regex, properties)
  (r"nonexistent incState", ["C36"]),
  (r"EventSource decodes event stream fields", ["C32"]), (r"parseChunk extension names", ["C29", "C32"]),
  (r"restarts the line parser after 100 Continue", ["C29", "C32"]), (r"invalid request url to InvalidURL", ["C32"]),
- (r"Frame.attach loop error", ["C14"]), (r"TcpClientStack keeps sending a partly sent", ["C36"]), (r"EventSource reads a CRLF split across", ["C33"]), (r"treats a tasker whose generator returned as aborted", ["C03"]), (r"aborts the remaining taskers when one fails", ["C03"]), (r"Framer.prune also prunes the named clones", ["C12"]), (r"deleting a field of a Data record", ["C19"]), (r"Patron responses carry their own copy", ["C30"]), (r"modict.get returns the newest", ["C39"]), (r"odict.reorder with the odict itself", ["C39"]), (r"MonoTimer.repeat and extend compensate", ["C42"]), (r"3xx response without a Location", ["C32"]), (r"Steward.refresh referenced undefined", ["C32"]), (r"Porter.serviceStewards closes the connection", ["C32"]), (r"Steward.respond echoes a non utf-8", ["C32"]),
+ (r"Frame.attach loop error", ["C14"]), (r"TcpClientStack keeps sending a partly sent", ["C36"]), (r"EventSource reads a CRLF split across", ["C33"]), (r"treats a tasker whose generator returned as aborted", ["C03"]), (r"aborts the remaining taskers when one fails", ["C03"]), (r"Framer.prune also prunes the named clones", ["C12"]), (r"deleting a field of a Data record", ["C19"]), (r"Patron responses carry their own copy", ["C30"]), (r"modict.get returns the newest", ["C39"]), (r"odict.reorder with the odict itself", ["C39"]), (r"MonoTimer.repeat and extend compensate", ["C42"]), (r"serviceTxPktsOnce keeps per destination order", ["C35"]), (r"3xx response without a Location", ["C32"]), (r"Steward.refresh referenced undefined", ["C32"]), (r"Porter.serviceStewards closes the connection", ["C32"]), (r"Steward.respond echoes a non utf-8", ["C32"]),
 ]
 os.makedirs("/verif/mutants", exist_ok=True)
 base = open("/root/.vp/repo_root_sha").read().strip() if os.path.exists("/root/.vp/repo_root_sha") else None
